@@ -46,3 +46,14 @@ package regex
 //@   nopanic
 //@   modifies s.pattern, s.compileOnce.err, s.compileOnce.once.fired
 //@   ensures result1 == nil ==> closesAt(s.file.content, result0 - 1) && result0 >= 3 && result0 <= len(s.file.content)
+
+//@ func (*Schema).Pattern()
+//@   props C18
+//@   trusted "regex type accessor: compiles once; ASSUMED to touch only the regex schema object itself"
+//@   maypanic
+//@   modifies *s
+//@ func (*Schema).Example()
+//@   props C18
+//@   trusted "regex example generator (third-party): ASSUMED to touch only the regex schema object itself"
+//@   maypanic
+//@   modifies *s
